@@ -19,9 +19,16 @@ ValidAction(x) == x \in {"@error", "@panic", "@ignore"}
 \* name is unchanged; a pair is only produced when the result is a member of the target (enum/transformer_builtin.go)
 TrName(tr, n) == IF n = tr[1] THEN tr[2] ELSE n
 TrMaps(p, n) == p.tr # <<>> /\ \E i \in DOMAIN p.tgt : p.tgt[i].n = TrName(p.tr, n)
+\* a second enum:transform line (tr2, optional field): every transformer yields its pairs -- note that a name its pattern does not
+\* match is "renamed" to itself and is a pair when the target has it -- and the pairs are merged in line order, a later one replacing
+\* an earlier one for the same member (builder/enum.go executeTransformers)
+T2(p) == IF "tr2" \in DOMAIN p THEN p.tr2 ELSE <<>>
+Tr2Maps(p, n) == T2(p) # <<>> /\ \E i \in DOMAIN p.tgt : p.tgt[i].n = TrName(T2(p), n)
+\* the statement says "by the configured transformers": where two of them name different targets for one member it is silent
+TrOpen(p) == \E i \in DOMAIN p.src : LET n == p.src[i].n IN ~(p.map # <<>> /\ p.map[1] = n) /\ TrMaps(p, n) /\ Tr2Maps(p, n) /\ TrName(p.tr, n) # TrName(T2(p), n)
 TargetNameOf(m, n) == IF m # <<>> /\ m[1] = n THEN m[2] ELSE n
 \* enum:map, else the transformer, else the identical name (builder/enum.go Enum.Build)
-TargetName(p, n) == IF p.map # <<>> /\ p.map[1] = n THEN p.map[2] ELSE IF TrMaps(p, n) THEN TrName(p.tr, n) ELSE n
+TargetName(p, n) == IF p.map # <<>> /\ p.map[1] = n THEN p.map[2] ELSE IF Tr2Maps(p, n) THEN TrName(T2(p), n) ELSE IF TrMaps(p, n) THEN TrName(p.tr, n) ELSE n
 ActionCheck(tgt, rootErr, x) ==
   IF IsAction(x) THEN (IF ~ValidAction(x) THEN "invalid-action" ELSE IF x = "@error" /\ ~rootErr THEN "error-without-error-result" ELSE "ok")
   ELSE IF Has(tgt, x) THEN "ok" ELSE "missing-target"
@@ -45,6 +52,7 @@ EffErr(p) == p.rootErr
 Gen(p) ==
   IF ~p.enumOn THEN [fail |-> "", cases |-> <<>>, cast |-> TRUE]
   ELSE IF p.tr # <<>> /\ ~\E i \in DOMAIN p.src : TrMaps(p, p.src[i].n) THEN [fail |-> "transformer-maps-nothing", cases |-> <<>>, cast |-> FALSE]
+  ELSE IF T2(p) # <<>> /\ ~\E i \in DOMAIN p.src : Tr2Maps(p, p.src[i].n) THEN [fail |-> "transformer-maps-nothing", cases |-> <<>>, cast |-> FALSE]
   ELSE LET w == Walk(p, p.src, p.tgt, p.map, EffErr(p), 1, <<>>) IN
   IF w.fail # "" THEN [fail |-> w.fail, cases |-> w.cases, cast |-> FALSE]
   ELSE IF p.unknown = "" THEN [fail |-> "unknown-not-configured", cases |-> w.cases, cast |-> FALSE]
@@ -65,7 +73,7 @@ RunOp(p, g, x) == IF g.cast THEN [k |-> "val", v |-> x]
 
 \* ---------------------------------------------------------------- declarative (C08)
 MapOf(p, n) == TargetName(p, n)                             \* enum:map, else the configured transformer, else identical name
-TrUseless(p) == p.enumOn /\ p.tr # <<>> /\ ~\E i \in DOMAIN p.src : TrMaps(p, p.src[i].n)    \* a transformer that maps nothing: a configuration error
+TrUseless(p) == p.enumOn /\ ((p.tr # <<>> /\ ~\E i \in DOMAIN p.src : TrMaps(p, p.src[i].n)) \/ (T2(p) # <<>> /\ ~\E i \in DOMAIN p.src : Tr2Maps(p, p.src[i].n)))    \* a transformer that maps nothing: a configuration error
 TargetOK(p, a) == IF IsAction(a) THEN ValidAction(a) /\ (a = "@error" => EffErr(p)) ELSE Has(p.tgt, a)
 Agree(p, a, b) == IF IsAction(a) \/ IsAction(b) THEN a = b ELSE ValOf(p.tgt, a) = ValOf(p.tgt, b)
 EnumGenOK(p) ==
@@ -105,6 +113,9 @@ Progs(maxLen) ==
   \* one transformer, alone and together with an enum:map line for the same / another member
   \cup {[kind |-> "int", tr |-> x, same |-> FALSE, src |-> s, tgt |-> t, map |-> m, unknown |-> u, rootErr |-> TRUE, pos |-> "top", enumOn |-> TRUE] :
            s \in E, t \in E, x \in Trs, m \in {<<>>, <<"A", "C">>, <<"A", "@ignore">>, <<"B", "A">>}, u \in {"@error", "@ignore"}}
+  \* two transformers (those programs on which the statement is not silent)
+  \cup {q \in {[kind |-> "int", tr |-> <<"A", "B">>, tr2 |-> y, same |-> FALSE, src |-> s, tgt |-> t, map |-> <<>>, unknown |-> u, rootErr |-> TRUE, pos |-> "top", enumOn |-> TRUE] :
+                  s \in E, t \in E, y \in {<<"C", "B">>, <<"B", "C">>, <<"A", "C">>, <<"C", "A">>}, u \in {"@error", "@ignore"}} : ~TrOpen(q)}
   \cup {[kind |-> k, tr |-> <<>>, same |-> FALSE, src |-> s, tgt |-> t, map |-> <<>>, unknown |-> u, rootErr |-> TRUE, pos |-> "top", enumOn |-> TRUE] :
            k \in Kinds, s \in E, t \in E, u \in {"@error", "@ignore", "A"}}
   \* one large enum (ten members with distinct values)
